@@ -67,10 +67,14 @@ var registry = map[string]propDef{
 	"C06w": {"other", props.OTwindows},
 	"C15w": {"other", props.OTwindows},
 	"C02w": {"other", props.OTwindows},
+	"C02k": {"other", props.C06kdf},
+	"C02m": {"other", props.C06mitccrh},
 	"C02t": {"other", props.C11table},
 	"C02f": {"other", props.C11fill},
 	"C02e": {"other", props.C11data},
 	"C03w": {"other", props.C05wiring},
+	"C03r": {"other", props.C03rewrite},
+	"C12r": {"other", props.C03rewrite},
 	"C04r": {"other", props.C02ranges},
 	"C06s": {"other", props.C06prg},
 	"C18p": {"other", props.C18pack},
